@@ -568,7 +568,8 @@ class OnlineGen:
                     else:
                         direction = rng.choice([1, -1])
                     base = read_dtm(last) if last is not None else 10 * u
-                    nn = n if rng.random() < 0.85 else n + rng.choice([-1, 1])
+                    # mostly one timestamp per sample; sometimes one too few / too many, or none at all for some samples
+                    nn = n if rng.random() < 0.8 else rng.choice([n - 1, n + 1, 0, 0])
                     lst = [base + direction * (jj + rng.choice([0, 1])) * u for jj in range(max(0, nn))]
                     if rng.random() < 0.12 and lst:
                         lst[-1] = base - direction * 5 * u
@@ -890,6 +891,19 @@ def scripted(rng):
                {"op": "load", "i": 0, "arr": mk(n1, rng.choice([1, 2])), "copy": False},
                rng.choice([{"op": "append_arr", "i": 0, "arr": mk(n2, rng.choice([1, 2]))}, {"op": "set_cap", "i": 0, "v": n1 + rng.randrange(1, 4)}]),
                {"op": "get", "i": 0}, {"op": "append_arr", "i": 0, "arr": mk(1, 1)}]
+        out.append({"ops": ops})
+    # irregular receivers and an array appended with NO timestamps for it (an empty sequence is still a sequence of the wrong
+    # length), with too few, and with the right number
+    for kind in ("A", "C", "D"):
+        dt = sorted(SUPPORTED[kind])[0]
+        n0, m = rng.randrange(0, 3), rng.randrange(1, 4)
+        mk = lambda n: {"vals": [[rng.randrange(2)] for _ in range(n)], "ndim": 2 if kind == "D" and rng.random() < 0.5 else 1, "ncols": 1, "dtype": dt, "form": "own"}
+        ops = [{"op": "from_array", "kind": kind, "arr": mk(n0), "via": "ctor", "scale": 0, "props": {}, "timing": {"mode": 2, "tss": [j * u for j in range(n0)]}},
+               {"op": "append_arr", "i": 0, "arr": mk(m), "ts": []},
+               {"op": "append_arr", "i": 0, "arr": mk(m), "ts": [(10 + j) * u for j in range(m - 1)]},
+               {"op": "get", "i": 0},
+               {"op": "append_arr", "i": 0, "arr": mk(m), "ts": [(20 + j) * u for j in range(m)]},
+               {"op": "get", "i": 0}]
         out.append({"ops": ops})
     # borrowed buffer without room: load_data(copy=True) / append that must grow -> rejected, nothing changes
     for _ in range(6):
